@@ -35,7 +35,13 @@ type Item struct {
 //	        TOCConfig{Title, MaxLevel: Max}; autotoc Times 1..2), updtoc (Times 1..3), headings (ListHeadings +
 //	        GetHeadingCount)
 //	both  : reopen (ToBytes -> OpenFromMemory; Fresh dates from the time the registries were process-wide and
-//	        asked for their reset - they are per-document now and the flag changes nothing)
+//	        asked for their reset - they are per-document now and the flag changes nothing; Cold: no note call
+//	        (not even a count) is made on the opened document until the next op aimed at it)
+//	several documents (kind "derived", see derived.go): Doc selects the document an op is aimed at (index modulo
+//	        the number of documents that exist; document 0 is the one the case starts with); derive renders
+//	        Times (1..3) documents from document Doc with a TemplateEngine (LoadTemplateFromDocument, then
+//	        Variant 0 RenderTemplateToDocument | 1 RenderToDocument) - each starts with a copy of the model of
+//	        the document it was rendered from
 type Op struct {
 	K       string `json:"k"`
 	Text    string `json:"text,omitempty"`
@@ -53,6 +59,8 @@ type Op struct {
 	Times   int    `json:"times,omitempty"`
 	Variant int    `json:"variant,omitempty"`
 	Fresh   bool   `json:"fresh,omitempty"`
+	Doc     int    `json:"doc,omitempty"`
+	Cold    bool   `json:"cold,omitempty"`
 }
 
 type Case struct {
@@ -138,6 +146,15 @@ type state struct {
 
 	handles []handle // paragraphs added by "para" since the last (re)open
 	stop    bool
+
+	// several documents (derived.go)
+	idx        int    // index of this document in the case's list of documents
+	tag        string // "" in a single-document case, else "[doc=N] " (put into every failure detail)
+	contentOff bool   // the body is not modelled (document rendered by RenderToDocument, which appends the text again)
+	cold       bool   // opened "cold": no note call on this document until the next op aimed at it
+	// ids of the live notes this document did not add itself since it exists in its present form:
+	// fromFile = they were in the file it was opened from, inherited = they came with the document it was rendered from
+	fnFromFile, enFromFile, fnInherited, enInherited map[string]bool
 }
 
 type handle struct {
@@ -146,7 +163,7 @@ type handle struct {
 }
 
 func (s *state) fail(clause, format string, a ...interface{}) {
-	s.res.Fail(clause, "[op=%d %s] "+format, append([]interface{}{s.cur, s.opKind()}, a...)...)
+	s.res.Fail(clause, "[op=%d %s] %s"+format, append([]interface{}{s.cur, s.opKind(), s.tag}, a...)...)
 }
 
 func (s *state) opKind() string {
@@ -457,7 +474,7 @@ func renderNotes(m map[string]string) string {
 }
 
 func (s *state) checkCounts(where string) {
-	if s.notesOff {
+	if s.notesOff || s.cold {
 		return
 	}
 	var nf, ne int
@@ -568,6 +585,7 @@ func (s *state) doNote(op Op) {
 			}
 			delete(model, id)
 			*removed = append(*removed, id)
+			s.labelRemoval(foot, id)
 		} else if err == nil {
 			s.fail("C15.N3", "removing the %s %s id %q reported success", kind, op.K[2:], id)
 			s.notesOff = true
@@ -617,7 +635,7 @@ func (s *state) wantContent() []bodyEl {
 
 // checkContent: every heading, paragraph and table of the model is still in the body, in order (T4).
 func (s *state) checkContent(sn *snap, where string) {
-	if s.stop {
+	if s.stop || s.contentOff {
 		return
 	}
 	s.res.Eval("C15.T4")
@@ -994,6 +1012,9 @@ func (s *state) doReopen(op Op) {
 	}
 	s.doc = nd
 	s.handles = nil
+	s.cold = op.Cold
+	s.fnFromFile, s.enFromFile = keys(s.fn), keys(s.en)
+	s.fnInherited, s.enInherited = nil, nil
 	sn2 := s.snapshot("after reopen")
 	if sn2 == nil {
 		return
@@ -1032,12 +1053,17 @@ func run(c Case) *kit.Result {
 	if !s.call("New", func() { s.doc = document.New() }) {
 		return res
 	}
+	w := &world{docs: []*state{s}}
 	for i, op := range c.Ops {
-		if s.stop {
+		if w.stopped() {
 			res.Count("ops-after-stop", len(c.Ops)-i)
 			break
 		}
-		s.cur = i
+		w.setCur(i)
+		s := w.target(op)
+		if op.K != "reopen" && op.K != "derive" {
+			s.cold = false // an op on the document itself ends the "no note call yet" period (rendering from it makes none)
+		}
 		switch {
 		case isListOp(op.K):
 			s.doList(op)
@@ -1045,28 +1071,46 @@ func run(c Case) *kit.Result {
 			s.doNote(op)
 		case op.K == "reopen":
 			s.doReopen(op)
+		case op.K == "derive":
+			w.derive(s, op)
 		case op.K == "gentoc" || op.K == "autotoc" || op.K == "updtoc" || op.K == "headings":
 			s.doTOC(op)
 		default:
 			s.doBody(op)
 		}
+		// every document of the case - not only the one the op was aimed at - still holds exactly its own
+		// lists and notes
+		w.checkOthers(s, op)
 	}
-	s.cur = len(c.Ops)
-	if !s.stop {
-		if sn := s.snapshot("final save"); sn != nil {
-			s.checkAll(sn, "final save")
-			if !s.tocStale && !s.tocBad {
-				s.checkTOC(sn, "final save")
+	w.setCur(len(c.Ops))
+	listsOff, notesOff, tocOff := 0, 0, 0
+	for _, s := range w.docs {
+		s.cold = false
+		if !w.stopped() {
+			if sn := s.snapshot("final save"); sn != nil {
+				s.checkAll(sn, "final save")
+				if !s.tocStale && !s.tocBad {
+					s.checkTOC(sn, "final save")
+				}
 			}
 		}
+		if s.listsOff {
+			listsOff++
+		}
+		if s.notesOff {
+			notesOff++
+		}
+		if s.tocOff {
+			tocOff++
+		}
 	}
-	if s.listsOff {
+	if listsOff > 0 {
 		res.Count("off:lists", 1)
 	}
-	if s.notesOff {
+	if notesOff > 0 {
 		res.Count("off:notes", 1)
 	}
-	if s.tocOff {
+	if tocOff > 0 {
 		res.Count("off:toc", 1)
 	}
 	describe(c, res)
